@@ -86,9 +86,17 @@ def _parse_numbering(tokens):
     if tokens.try_skip(TokenType.SYMBOL, ":"):
         is_ordered = _parse_list_type(tokens)
         tokens.skip(TokenType.SYMBOL, "(")
-        level = int(tokens.next_value(TokenType.INTEGER)) - 1
+        level = _parse_level(tokens.next_value(TokenType.INTEGER))
         tokens.skip(TokenType.SYMBOL, ")")
         return documents.numbering_level(level, is_ordered=is_ordered)
+
+
+def _parse_level(value):
+    try:
+        return int(value) - 1
+    except ValueError:
+        # int() rejects digit strings longer than sys.get_int_max_str_digits()
+        raise LineParseError("Invalid list level: {0}".format(value))
 
 
 def _parse_list_type(tokens):
